@@ -113,7 +113,7 @@ PROPS = {
         "streams": ["mapcollide"], "driver": {"mapcollide": "map"}, "level": "proof",
         "trusted_base": LEAN_TB, "assumptions": MAP_ASSUME,
         "rule": "adversarial digest tables over 1-4 levels (alphabets of 2-8 values per level), collision limits 0,1,2,3,255, insert/update/remove mixes incl. grow-then-shrink; distinct = distinct programs",
-        "explanation": "Theorems: limit_refuses_new_key, limit_allows_update_and_room (refusal exactly when the first-level group already holds more than the limit and the key is new; an error returns no new state), order_canonical (ascending lexicographic digest order, full collisions in insertion order); group shapes (inline group born with two keys, exported to an external slab exactly when a first-level group exceeds the element limit, collapsed to a single element, insertion-ordered list when digests are exhausted) are part of ElemsInv, preserved by C02's theorems. Oracle: Go map + VerifyMap + no storage effect after a refusal.",
+        "explanation": "Theorems: limit_refuses_new_key, limit_allows_update_and_room (refusal exactly when the first-level group already holds more than the limit and the key is new), order_canonical (ascending lexicographic digest order), full_collisions_keep_insertion_order / new_colliding_key_is_appended (a new key goes behind every key with the same digest vector), export_exactly_when_oversized + SetKindRel.ext_iff (one Set changes at most one first-level element of the whole map; a collision group born or updated by it is external iff prefix + size exceeds the element limit; an external group stays external; nothing else is exported or inlined), no_reinline_on_shrink (one Remove: an external group stays external whatever its size, or collapses to its last single element). Group well-formedness (inline groups within the limit, >= 2 keys, slab header of external groups) is ElemsInv, preserved by C02's theorems; ElemsInv puts no size condition on external groups because the code does not re-inline them. Oracle: Go map + VerifyMap + no storage effect after a refusal.",
     },
     "C03": {
         "streams": ["persist", "mpersist", "storage", "nested", "slabid"], "driver": {"persist": "array", "mpersist": "map", "storage": "storage", "nested": "world", "slabid": "slabid"}, "level": "proof",
